@@ -1,6 +1,6 @@
 #!/usr/bin/env python3
 """Query clang for the JSON AST of one qualified name in one TU of /repo (real compile flags)."""
-import json, os, re, subprocess, sys, hashlib, threading
+import json, os, re, subprocess, sys, hashlib
 
 REPO = os.environ.get("VF_REPO", "/repo")
 NINJA = os.path.join(REPO, "_build", "build.ninja")
@@ -57,52 +57,37 @@ class ClangError(Exception):
     pass
 
 
-_pp_cache = {}
-_pp_lock = threading.Lock()
-
-
-def _pp_hash(cc, tu, extra):
-    """sha1 of the preprocessed TU + flags (None if preprocessing fails: then no caching)"""
-    k = (tu, extra)
-    with _pp_lock:
-        if k in _pp_cache:
-            return _pp_cache[k]
-        cmd = [cc] + tu_flags(tu) + list(extra) + ["-E", "-Wno-everything", os.path.join(REPO, tu)]
-        p = subprocess.run(cmd, capture_output=True)
-        h = None
-        if p.returncode == 0:
-            h = hashlib.sha1(p.stdout + b"|" + " ".join(cmd).encode()).hexdigest()
-        _pp_cache[k] = h
-        return h
-
-
 def query(tu, name, extra_flags=()):
     """Return list of top-level decl nodes whose qualified name matches `name` (clang's substring filter)."""
     cc = "clang" if tu.endswith(".c") else "clang++"
     cmd = [cc] + tu_flags(tu) + list(extra_flags) + ["-fsyntax-only", "-Wno-everything", "-Xclang", "-ast-dump=json",
                                                      "-Xclang", "-ast-dump-filter=" + name, os.path.join(REPO, tu)]
-    # The AST is a function of the preprocessed TU, the flags and the filter: results are cached under that key
-    # (sha1 of `clang -E` output), so an edited source or header always misses the cache. VF_AST_CACHE=0 disables.
+    # opt-in development cache (VF_AST_CACHE=<dir>): never used unless requested; the key covers the command and the
+    # content of the TU, of the sources next to it and of the working tree's uncommitted changes
+    cache = os.environ.get("VF_AST_CACHE")
     cfile = None
-    if os.environ.get("VF_AST_CACHE", "1") != "0":
-        key = _pp_hash(cc, tu, tuple(extra_flags))
-        if key:
-            cdir = os.path.join(os.path.dirname(os.path.dirname(os.path.abspath(__file__))), "out", ".astcache")
-            os.makedirs(cdir, exist_ok=True)
-            cfile = os.path.join(cdir, hashlib.sha1((key + "|" + name).encode()).hexdigest() + ".json")
+    if cache:
+        h = hashlib.sha1(" ".join(cmd).encode())
+        d = os.path.dirname(os.path.join(REPO, tu))
+        for fn in sorted(os.listdir(d)):
+            fp = os.path.join(d, fn)
+            if os.path.isfile(fp):
+                h.update(open(fp, "rb").read())
+        h.update(subprocess.run(["git", "-C", REPO, "diff", "HEAD"], capture_output=True).stdout)
+        h.update(subprocess.run(["git", "-C", REPO, "rev-parse", "HEAD"], capture_output=True).stdout)
+        os.makedirs(cache, exist_ok=True)
+        cfile = os.path.join(cache, h.hexdigest() + ".json")
     if cfile and os.path.exists(cfile):
-        with open(cfile) as f:
-            s = f.read()
+        s = open(cfile).read()
     else:
         p = subprocess.run(cmd, capture_output=True, text=True)
         if p.returncode != 0:
             raise ClangError("clang failed on %s: %s" % (tu, p.stderr[-2000:]))
         s = p.stdout
         if cfile:
-            tmp = "%s.%d" % (cfile, os.getpid())
-            with open(tmp, "w") as f:
+            with open(cfile + ".tmp%d" % os.getpid(), "w") as f:
                 f.write(s)
-            os.replace(tmp, cfile)
+            os.replace(cfile + ".tmp%d" % os.getpid(), cfile)
     dec = json.JSONDecoder()
     i, objs = 0, []
     n = len(s)
